@@ -261,7 +261,7 @@ pub fn run_batch_exe(
                     if n == 0 {
                         break;
                     }
-                    if line.starts_with("C ") {
+                    if line.starts_with("C ") || line.starts_with("T ") {
                         // lane C: "C <run> <step> <entry>" names the table call in flight
                         last_marker = line.clone();
                     } else if s.len() < 4000 {
@@ -395,7 +395,7 @@ pub fn run_batch_exe(
 pub fn process_history_pair(prop: &str, seed: u64, from: u64, run: u64) -> Option<(u64, u64)> {
     let seq = run_batch(prop, seed, from, run + 1, 1, true).ok()?;
     let alone = run_batch(prop, seed, run, run + 1, 1, true).ok()?;
-    if prop == "C16" {
+    if prop == "C16" || prop == "C15" {
         return Some((
             seq.violation_runs.contains(&run) as u64,
             alone.violation_runs.contains(&run) as u64,
@@ -432,6 +432,20 @@ fn now_secs() -> u64 {
 /// clock is read by the supervisor only, never by anything that is logged or hashed.)
 fn hang_secs() -> u64 {
     std::env::var("DNSSIM_HANG_SECS").ok().and_then(|s| s.parse().ok()).unwrap_or(90)
+}
+
+/// The last "<tag><run> <step> ..." marker a worker wrote to stderr before it died.
+pub fn marker_line(why: &str, tag: &str) -> Option<String> {
+    why.lines()
+        .filter_map(|l| {
+            let l = l.trim();
+            if l.starts_with(tag) {
+                Some(l.to_string())
+            } else {
+                l.find(&format!("stderr: {}", tag)).map(|i| l[i + 8..].to_string())
+            }
+        })
+        .last()
 }
 
 pub fn merge(total: &mut Agg, a: Agg) {
@@ -552,7 +566,7 @@ pub fn replay_value(prop: &str, lane: &str, scenario: &Value, verbose: bool) -> 
             let run = scenario["run"].as_u64().unwrap_or(0);
             match process_history_pair(prop, seed, from, run) {
                 Some((a, b)) if a != b => Ok(Some(crate::exec::Violation {
-                    props: vec![if prop == "C16" { "C16" } else { "C17" }],
+                    props: vec![match prop { "C16" => "C16", "C15" => "C15", _ => "C17" }],
                     clause: "result-depends-on-process-history".into(),
                     op: "run-sequence".into(),
                     key: String::new(),
@@ -717,6 +731,15 @@ pub fn cmd_check(prop: &str, tier: &str, seed: u64) -> i32 {
             } else {
                 death_violations.push(rep);
             }
+        } else if prop == "C16" && !why.starts_with("HUNG") && marker_line(why, "T ").is_some() {
+            let rep = crate::lane_t::death_violation_c16(seed, *run, why);
+            let sig = rep["violation"]["signature"].as_str().unwrap_or("").to_string();
+            if let Some(i) = kf.matches(prop, "T", &sig) {
+                let f = &kf.findings[i];
+                println!("KNOWN-FINDING: property={} {} [signature {}; worker died]", prop, f.what, f.signature);
+            } else {
+                death_violations.push(rep);
+            }
         } else if why.starts_with("HUNG") && matches!(prop, "C08" | "C09" | "C10" | "C11") {
             // an API operation of the history never returned
             let v = crate::exec::Violation {
@@ -808,7 +831,7 @@ pub fn cmd_check(prop: &str, tier: &str, seed: u64) -> i32 {
                     .output();
                 let reproduced = matches!(&st, Ok(o) if o.status.code() == Some(1));
                 let crashed = matches!(&st, Ok(o) if o.status.code().is_none() || o.status.code().map(|c| c > 2).unwrap_or(false));
-                if reproduced || (crashed && prop == "C15") {
+                if reproduced || (crashed && (prop == "C15" || prop == "C16")) {
                     println!(
                         "violation: {}",
                         pick["violation"]["detail"].as_str().unwrap_or("")
@@ -830,7 +853,7 @@ pub fn cmd_check(prop: &str, tier: &str, seed: u64) -> i32 {
                                 .stderr(Stdio::null())
                                 .status();
                             let ok2 = match st2 {
-                                Ok(s) => s.code() == Some(1) || (prop == "C15" && s.code() != Some(0) && s.code() != Some(2)),
+                                Ok(s) => s.code() == Some(1) || ((prop == "C15" || prop == "C16") && s.code() != Some(0) && s.code() != Some(2)),
                                 Err(_) => false,
                             };
                             if ok2 {
@@ -841,7 +864,7 @@ pub fn cmd_check(prop: &str, tier: &str, seed: u64) -> i32 {
                                 println!("VIOLATION property={} replay={}", prop, path2);
                                 replay_path = path2;
                                 exit = 1;
-                            } else if prop == "C17" || prop == "C16" {
+                            } else if prop == "C17" || prop == "C16" || prop == "C15" {
                                 // the outcome depended on what the worker's thread had processed
                                 // (C17) / on failures of threads of *earlier runs* of the same
                                 // process (C16): replay the run sequence instead
@@ -849,7 +872,7 @@ pub fn cmd_check(prop: &str, tier: &str, seed: u64) -> i32 {
                                 match process_history_window(prop, seed, r) {
                                     Some((from, h_seq, h_alone)) => {
                                         let v = crate::exec::Violation {
-                                            props: vec![if prop == "C16" { "C16" } else { "C17" }],
+                                            props: vec![match prop { "C16" => "C16", "C15" => "C15", _ => "C17" }],
                                             clause: "result-depends-on-process-history".into(),
                                             op: "run-sequence".into(),
                                             key: String::new(),
